@@ -44,6 +44,12 @@ CHECKS = {
             'dependence, monotonicity, end points and linearity; 112 real backtests cover every combination of declared defaults, dna() and explicit hyperparameters in both simulators '
             'with one and two routes in both orders, the strategies recording self.hp.',
             'Declarations are those listed in the evidence bounds; the alphabet is read from Optimizer.__init__.', 'DESIGN.md 3/C19'),
+    'C20': ('opseq', 'complete enumeration of gap patterns for _fill_absent_candles + explicit-state BFS over add_candle / add_multiple_1m_candles histories on the real CandlesState against a dict keyed by timestamp',
+            'Every non-empty presence pattern of every interval of up to 8 (quick) / 11 (thorough) minutes is filled by the real function and compared field by field; every history of new / repeated / '
+            'older (previous, 3 back, second, oldest, unknown) candles and next / same / partly overlapping batches on 1m and 5m storages with tiny buckets (and a 25-candle pre-filled store) is executed and the '
+            'stored series compared with the reference in every state; research.backtest spacing validation over a menu of leading gaps.',
+            'Candle values never influence control flow, states are merged on timestamps and capacity. For an unknown older timestamp only ordering and integrity of the other candles are demanded.',
+            'DESIGN.md 3/C20'),
 }
 
 NOT_APPLICABLE = {}
